@@ -41,4 +41,6 @@ fn main() {
         run_one(&input)
     };
     println!("{}", out);
+    // some commands may leave blocked threads behind: do not wait for them
+    std::process::exit(0);
 }
